@@ -230,6 +230,34 @@ def run(ctx):
         ctx.case(dict(kind='docgen', seed=seed, perm=(i % 2 == 0)))
         ctx.count('doc:loaded-from-generated-file')
         report(doc_roundtrip(doc, 'generated file seed=%d' % seed), dict(kind='docgen', seed=seed, perm=(i % 2 == 0)))
+    # ---- "whenever a load succeeds the write succeeds and its output loads": generated files with ONE thing removed or emptied (an optional
+    # attribute, an optional child, a text) that still load
+    from vlib import faults
+    import xml.etree.ElementTree as ET
+    for i in range(ctx.n(25, 800)):
+        seed = ctx.rng.randrange(10 ** 9)
+        data = docgen.generate(seed, dict(anim=False))
+        root = ET.fromstring(data)
+        els = list(root.iter())
+        groups = {}
+        for st in faults.sites(root):
+            if st[0] in ('dropattr', 'dropchild', 'emptied'):
+                e = els[st[1]]
+                extra = st[2] if isinstance(st[2], str) else (faults.local(list(e)[st[2]]) if st[0] == 'dropchild' else '')
+                groups.setdefault((st[0], faults.local(e), extra), []).append(st)
+        for key in sorted(groups, key=str):
+            site = ctx.rng.choice(groups[key])
+            try:
+                bad, _ = faults.apply(data, site)
+                doc = collada.Collada(io.BytesIO(bad))
+            except Exception:
+                continue        # not loadable: C08's subject
+            ctx.count('doc:loadable-with-one-thing-missing')
+            ctx.case(dict(kind='reduced', seed=seed, site=list(site)))
+            res = doc_roundtrip(doc, 'generated file seed=%d without %s of <%s>' % (seed, key[2] or 'the text', key[1]))
+            if res:
+                res = ('reduced:%s:%s:%s' % (res[0].split(':')[0], key[1], key[2]), res[1])
+            report(res, dict(kind='reduced', seed=seed, site=list(site)))
     # ---- shipped documents
     for label, thunk in corpus_docs():
         try:
@@ -250,6 +278,11 @@ def replay(ctx, rep):
         return bad
     if rep.get('kind') == 'constructed':
         res = doc_roundtrip(modelgen.build(rep['seed'], rep.get('opts')), 'constructed seed=%d' % rep['seed'])
+    elif rep.get('kind') == 'reduced':
+        import collada
+        from vlib import docgen, faults
+        bad, _ = faults.apply(docgen.generate(rep['seed'], dict(anim=False)), tuple(rep['site']))
+        res = doc_roundtrip(collada.Collada(io.BytesIO(bad)), 'generated file seed=%d with site %s removed' % (rep['seed'], rep['site']))
     elif rep.get('kind') == 'docgen':
         import collada
         from vlib import docgen
